@@ -22,6 +22,7 @@ pub fn secret_of(name: &str) -> Option<(char, [u8; 32])> {
         "k1" => ('k', K1.to_string()),
         "k2" => ('k', K2.to_string()),
         "k3" => ('k', K3.to_string()),
+        "k4" => ('k', even_y_secret()),
         "e1" => ('e', E1.to_string()),
         "e2" => ('e', E2.to_string()),
         _ => {
@@ -41,6 +42,19 @@ pub fn secret_of(name: &str) -> Option<(char, [u8; 32])> {
     let mut a = [0u8; 32];
     a.copy_from_slice(&v);
     Some((scheme, a))
+}
+
+/// a fixed secret whose public key has an EVEN y coordinate (compressed tag 02); k1..k3 all have odd y
+fn even_y_secret() -> String {
+    for i in 0u32..1000 {
+        let mut seed = b"enr-verif-k4".to_vec();
+        seed.extend_from_slice(&i.to_be_bytes());
+        let a = indep::keccak256(&seed);
+        if libsecp::SecretKey::from_slice(&a).is_ok() && indep::secp_pub(&a)[0] == 2 {
+            return indep::hex(&a);
+        }
+    }
+    unreachable!()
 }
 
 /// independent public key bytes of a named signer
